@@ -42,3 +42,13 @@ func simAfterCommit(p *Pebble) {
 		SimAfterCommit(p.db)
 	}
 }
+
+// SimMemTableSize, when > 0, replaces the engine's memtable size (production: 32 MiB).
+var SimMemTableSize uint64
+
+func simMemTableSize() uint64 {
+	if SimMemTableSize > 0 {
+		return SimMemTableSize
+	}
+	return 32 * 1024 * 1024
+}
